@@ -485,6 +485,79 @@ pub fn t_try_hammer(rng: &mut Rng, profile: &'static str, run_seed: u64, miri: b
     prog
 }
 
+/// C09/C14/C01: try_sync keeps arriving while suspended future operations of the same object (each holding its borrow of the
+/// value across the suspension) are being woken: every wake-up passes through "queue released, not yet rescheduled"
+pub fn t_try_wake_window(rng: &mut Rng, profile: &'static str, run_seed: u64, miri: bool) -> Program {
+    let mut prog = Program::new(run_seed, profile, "try_sync_vs_wakeups_of_suspended_operations");
+    prog.pool = *rng.pick(&[1usize, 1, 2, 3]);
+    prog.pool_mode = *rng.pick(&[PoolMode::Warm, PoolMode::Fresh]);
+    prog.n_obj = 1;
+    let mut t0 = vec![];
+    for _ in 0..rng.range(1, if miri { 2 } else { 5 }) {
+        let g = prog.new_gate();
+        let mut body = vec![Step::Touch, Step::Gate(g), Step::Touch];
+        if rng.chance(1, 3) { let g2 = prog.new_gate(); body.push(Step::Gate(g2)); body.push(Step::Touch); }
+        let id = prog.add_op(0, Kind::FutDesync, Disp::Detach, body);
+        t0.push(TAct::Op(id));
+        if rng.chance(1, 4) { let id = prog.add_op(0, Kind::Desync, Disp::None, vec![Step::Touch]); t0.push(TAct::Op(id)); }
+    }
+    prog.threads.push(t0);
+    for _ in 0..rng.range(1, if miri { 1 } else { 2 }) {
+        let mut acts = vec![];
+        for _ in 0..rng.range(2, if miri { 4 } else { 12 }) { let id = prog.add_op(0, Kind::TrySync, Disp::None, vec![Step::Touch]); acts.push(TAct::Op(id)); }
+        prog.threads.push(acts);
+    }
+    finish_firer(rng, &mut prog, 0);
+    prog
+}
+
+/// C06/C09/C14/C04: an event source kept the waker of a completed future operation that a `sync` caller had run on its own thread
+/// (pool saturated at that time). Later another future operation of the same object is suspended on a pool thread and the old waker
+/// is called: the queue is released without being rescheduled, with the suspended operation still at its front. Then come
+/// try_sync / sync / desync calls, and finally the event the suspended operation is really waiting for.
+pub fn t_stale_thread_waker(rng: &mut Rng, profile: &'static str, run_seed: u64, miri: bool) -> Program {
+    let mut prog = Program::new(run_seed, profile, "stale_sync_thread_waker_releases_suspended_queue");
+    prog.pool = rng.range(1, 2) as usize;
+    prog.pool_mode = *rng.pick(&[PoolMode::Warm, PoolMode::Fresh]);
+    let p = prog.pool;
+    prog.n_obj = p + 2;
+    let aux = p + 1;
+    prog.hold_phase = true;
+    prog.held_objs = (1..=aux).collect();
+    // thread 0: saturate the pool
+    let mut holders = vec![]; let mut saturated = vec![];
+    for o in 1..=p { let h = prog.new_hold(); let id = prog.add_op(o, Kind::Desync, Disp::None, vec![Step::Touch, Step::Hold(h)]); holders.push(TAct::Op(id)); saturated.push(TAct::WaitStart(id)); }
+    prog.threads.push(holders);
+    // thread 1: a future operation run by this thread's own sync (its waker wakes this thread), stashed by the body
+    let mut t1 = saturated.clone();
+    let a1 = prog.add_op(0, Kind::FutDesync, Disp::Detach, vec![Step::Touch, Step::StashWaker, Step::Touch]); t1.push(TAct::Op(a1));
+    let s1 = prog.add_op(0, Kind::Sync, Disp::None, vec![Step::Touch]); t1.push(TAct::Op(s1));
+    prog.threads.push(t1);
+    prog.hold_wait_threads = Some(vec![1]);
+    // thread 2: starts once the pool is free again (its marker operation can only run then)
+    let mut t2 = saturated;
+    let marker = prog.add_op(aux, Kind::Desync, Disp::None, vec![Step::Touch]); t2.push(TAct::Op(marker)); t2.push(TAct::WaitStart(marker));
+    let g = prog.new_gate();
+    let a2 = prog.add_op(0, Kind::FutDesync, Disp::Detach, vec![Step::Touch, Step::Gate(g), Step::Touch]); t2.push(TAct::Op(a2)); t2.push(TAct::WaitStart(a2));
+    let mut first_try = None;
+    for _ in 0..rng.range(1, if miri { 2 } else { 4 }) {
+        t2.push(TAct::FireStashedWakers);
+        let x = prog.add_op(0, Kind::TrySync, Disp::None, vec![Step::Touch]); t2.push(TAct::Op(x));
+        if first_try.is_none() { first_try = Some(x); }
+    }
+    // sometimes other callers arrive while the queue is in that state
+    match rng.below(4) {
+        0 => { let id = prog.add_op(0, Kind::Desync, Disp::None, vec![Step::Touch]); t2.push(TAct::Op(id)); }
+        1 => { let id = prog.add_op(0, Kind::FutDesync, Disp::Detach, vec![Step::Touch, Step::Yield, Step::Touch]); t2.push(TAct::Op(id)); }
+        _ => {}
+    }
+    prog.threads.push(t2);
+    prog.fire.push(FAct::WaitRet(first_try.unwrap()));
+    prog.fire.push(FAct::Fire(g));
+    finish_firer(rng, &mut prog, 0);
+    prog
+}
+
 // ---- pipes
 
 fn item_body(rng: &mut Rng, prog: &mut Program, p_gate: u64) -> Vec<Step> {
@@ -621,7 +694,7 @@ pub fn validate(prog: &Program) -> Result<(), String> {
                 TAct::Resume(o, _) | TAct::HandResumer(o) => { open_res.retain(|x| x != o); }
                 TAct::ReleaseMortal | TAct::PanicRelease => { if nb_only { return Err(format!("thread {} drops its owner inside a non-blocking window", t)); } released = true; }
                 TAct::PipeCreate(_) | TAct::Consume(..) => { if nb_only { return Err("pipe act in non-blocking window".into()); } }
-                TAct::DropStream(_) | TAct::Push(_) | TAct::Attempt(..) | TAct::AttemptJoin(_) | TAct::Stash(_) | TAct::WaitStart(_) | TAct::Checkpoint => {}
+                TAct::DropStream(_) | TAct::Push(_) | TAct::Attempt(..) | TAct::AttemptJoin(_) | TAct::Stash(_) | TAct::WaitStart(_) | TAct::Checkpoint | TAct::FireStashedWakers => {}
             }
         }
         if !open_fs.is_empty() || !open_res.is_empty() { return Err(format!("thread {} ends with open future_sync/resumer", t)); }
@@ -651,7 +724,7 @@ pub fn generate(profile: &'static str, rng: &mut Rng, run_seed: u64, miri: bool)
     match profile {
         "C03" => if r < 45 { t_dormant(rng, profile, run_seed, miri) } else { mixed(rng, profile, &cfg, run_seed) },
         "C04" => if r < 35 { t_multisync(rng, profile, run_seed, miri) } else if r < 55 { t_holds(rng, profile, run_seed, miri, true) } else { mixed(rng, profile, &cfg, run_seed) },
-        "C09" => if r < 25 { t_try_block(rng, profile, run_seed, miri) } else if r < 50 { t_try_hammer(rng, profile, run_seed, miri) } else { mixed(rng, profile, &cfg, run_seed) },
+        "C09" => if r < 25 { t_try_block(rng, profile, run_seed, miri) } else if r < 45 { t_try_hammer(rng, profile, run_seed, miri) } else if r < 55 { t_try_wake_window(rng, profile, run_seed, miri) } else if r < 63 { t_stale_thread_waker(rng, profile, run_seed, miri) } else { mixed(rng, profile, &cfg, run_seed) },
         "C10" => if r < 25 && !miri { t_raise(rng, profile, run_seed, miri) } else { t_holds(rng, profile, run_seed, miri, false) },
         "C11" => if r < 12 { t_pipe_chain(rng, profile, run_seed, miri) } else { t_pipe(rng, profile, run_seed, miri, false, false) },
         "C12" => t_pipe(rng, profile, run_seed, miri, true, false),
@@ -660,8 +733,9 @@ pub fn generate(profile: &'static str, rng: &mut Rng, run_seed: u64, miri: bool)
         "C14" if r >= 100 - (if miri { 40 } else { 12 }) => t_cancel_fs(rng, profile, run_seed, miri),
         "C08" if r >= 85 => t_cancel_fs(rng, profile, run_seed, miri),
         "C01" if r >= 92 => t_cancel_fs(rng, profile, run_seed, miri),
-        "C14" => if r < 10 { t_pipe(rng, profile, run_seed, miri, true, false) } else if r < 20 { t_pipe(rng, profile, run_seed, miri, false, false) } else if r < 30 { t_holds(rng, profile, run_seed, miri, true) } else { mixed(rng, profile, &cfg, run_seed) },
-        "C01" => if r < 8 { t_pipe(rng, profile, run_seed, miri, false, false) } else if r < 16 { t_pipe(rng, profile, run_seed, miri, true, false) } else { mixed(rng, profile, &cfg, run_seed) },
+        "C14" => if r < 10 { t_pipe(rng, profile, run_seed, miri, true, false) } else if r < 20 { t_pipe(rng, profile, run_seed, miri, false, false) } else if r < 30 { t_holds(rng, profile, run_seed, miri, true) } else if r < 42 { t_try_wake_window(rng, profile, run_seed, miri) } else if r < 52 { t_stale_thread_waker(rng, profile, run_seed, miri) } else { mixed(rng, profile, &cfg, run_seed) },
+        "C01" => if r < 8 { t_pipe(rng, profile, run_seed, miri, false, false) } else if r < 16 { t_pipe(rng, profile, run_seed, miri, true, false) } else if r < 24 { t_try_wake_window(rng, profile, run_seed, miri) } else if r < 30 { t_stale_thread_waker(rng, profile, run_seed, miri) } else { mixed(rng, profile, &cfg, run_seed) },
+        "C06" if r < 8 => t_stale_thread_waker(rng, profile, run_seed, miri),
         _ => mixed(rng, profile, &cfg, run_seed),
     }
 }
